@@ -228,6 +228,15 @@ impl Ctx {
         if self.trace_calls {
             eprintln!("@@RET {}", self.evaluations);
         }
+        if observe::errcap_active() {
+            let m = self.mon("c17.stderr-silent");
+            m.observed += 1;
+            m.judged += 1;
+            if !o.errs.is_empty() {
+                let got: String = o.errs.chars().take(300).collect();
+                self.violation("c17.stderr-silent", &format!("stderr-write:{}", top_op(rule)), rule, data, json!("nothing written to fd 2 during the call"), json!({"stderr": got, "outcome": o.out.brief()}), "an evaluation wrote to standard error: an externally visible effect other than the line of an evaluated `log`");
+            }
+        }
         o
     }
 
